@@ -53,6 +53,11 @@ func getWork() (*work, error) {
 				return
 			}
 		}
+		if p, err := loadPool(); err == nil {
+			for _, n := range []string{"sk-ed", "sk-ec"} {
+				os.WriteFile(filepath.Join(d, n+".pub"), []byte(p[n].Algo+" "+p[n].B64+" "+n+"\n"), 0o600)
+			}
+		}
 		theWork = &work{dir: d, fp: map[string]string{}}
 	})
 	return theWork, workErr
